@@ -3,6 +3,7 @@ import Drivers.Common
 /-!
 Driver lines of the EXT18 extension (not part of property C18); every first word starts with `x`.
   `xepochs <pad> <bits>`        → `ok <pairs> <bits-after>` | `err <Err> <bits-after>`
+  `xepochsf <pad> <bits>`       the same for the library repaired by notes/EXT18_fix_1.diff
   `xdilate <pad≥0> <bits>`      → `ok <bits>`                      (the spec)
   `xcontain <pairs> <ints>`     → `ok <bits>`   (count model)      `xcontainb` the same by binary search
   `xoverlap <pairsA> <pairsB>`  → `ok <bits>`                      `xoverlapb` the same by binary search
@@ -25,6 +26,13 @@ def step (ws : List String) : String :=
     match parseInt? pad, parseBits? bits with
     | some p, some x =>
       match epochsPad x p with
+      | (.ok l, y) => s!"ok {showPairs l} {showBits y}"
+      | (.error e, y) => s!"err {showErr e} {showBits y}"
+    | _, _ => "bad-op"
+  | ["xepochsf", pad, bits] =>
+    match parseInt? pad, parseBits? bits with
+    | some p, some x =>
+      match epochsPadFixed x p with
       | (.ok l, y) => s!"ok {showPairs l} {showBits y}"
       | (.error e, y) => s!"err {showErr e} {showBits y}"
     | _, _ => "bad-op"
